@@ -1,0 +1,95 @@
+//go:build verif
+
+package ed25519
+
+// Machine-checked contracts for this package (read by /verif/govc; comment-only, compiled only
+// with -tags verif). See /verif/DESIGN.md.
+//
+// The specifications are ZIP-215 (Verify) and RFC 8032 sections 5.1.5 / 5.1.6 (key generation and
+// signing), written over the uninterpreted operations of /verif/contracts/deps/edwards25519.spec;
+// hashcat("sha512", a, b, c) is SHA-512 of the concatenation a || b || c.
+
+//@ spec kof(sig []byte, pk []byte, msg []byte) edwards25519.Scalar = edwards25519.sreduce(hashcat("sha512", sig[0:32], pk, msg))
+//@ spec zip215(pk []byte, msg []byte, sig []byte) bool = len(sig) == 64 && edwards25519.scanon(sig[32:64]) && edwards25519.pdecodes(pk) && edwards25519.pdecodes(sig[0:32]) && edwards25519.pmul8(edwards25519.smul(edwards25519.sfrom(sig[32:64]), edwards25519.pB())) == edwards25519.padd(edwards25519.pmul8(edwards25519.pdecode(sig[0:32])), edwards25519.pmul8(edwards25519.smul(kof(sig, pk, msg), edwards25519.pdecode(pk))))
+
+//@ lemma cofactored(kA edwards25519.Point, kAn edwards25519.Point, sB edwards25519.Point, r edwards25519.Point)
+//@   props C01 C07
+//@   theory edgroup
+//@   requires kAn == edwards25519.pneg(kA)
+//@   ensures  (edwards25519.pmul8(edwards25519.padd(edwards25519.padd(kAn, sB), edwards25519.pneg(r))) == edwards25519.pid()) == (edwards25519.pmul8(sB) == edwards25519.padd(edwards25519.pmul8(r), edwards25519.pmul8(kA)))
+
+//@ func Verify(publicKey PublicKey, message []byte, sig []byte) (ok bool)
+//@   props C01 C07
+//@   theory edscalar
+//@   use g_smul_neg(kof(sig, publicKey, message), edwards25519.pdecode(publicKey))
+//@   use cofactored(edwards25519.smul(kof(sig, publicKey, message), edwards25519.pdecode(publicKey)), edwards25519.smul(kof(sig, publicKey, message), edwards25519.pneg(edwards25519.pdecode(publicKey))), edwards25519.smul(edwards25519.sfrom(sig[32:64]), edwards25519.pB()), edwards25519.pdecode(sig[0:32]))
+//@   panics  when len(publicKey) != 32
+//@   ensures ok == zip215(publicKey, message, sig)
+
+//@ spec seedscalar(seed []byte) edwards25519.Scalar = edwards25519.sclamp(hashcat("sha512", seed)[0:32])
+//@ spec pubpoint(seed []byte) edwards25519.Point = edwards25519.smul(seedscalar(seed), edwards25519.pB())
+//@ spec rscalar(seed []byte, msg []byte) edwards25519.Scalar = edwards25519.sreduce(hashcat("sha512", hashcat("sha512", seed)[32:64], msg))
+//@ spec rpoint(seed []byte, msg []byte) edwards25519.Point = edwards25519.smul(rscalar(seed, msg), edwards25519.pB())
+
+//@ func newKeyFromSeed(privateKey []byte, seed []byte)
+//@   props C07
+//@   requires len(privateKey) >= 64
+//@   panics   when len(seed) != 32
+//@   ensures  forall(i, 0, 32, privateKey[i] == seed[i])
+//@   ensures  forall(i, 0, 32, privateKey[32+i] == edwards25519.pencb(pubpoint(seed), i))
+//@   modifies privateKey[0:64]
+
+//@ func NewKeyFromSeed(seed []byte) (r PrivateKey)
+//@   props C07
+//@   panics  when len(seed) != 32
+//@   ensures len(r) == 64
+//@   ensures forall(i, 0, 32, r[i] == seed[i])
+//@   ensures forall(i, 0, 32, r[32+i] == edwards25519.pencb(pubpoint(seed), i))
+
+//@ func sign(signature []byte, privateKey []byte, message []byte)
+//@   props C07
+//@   requires len(signature) >= 64
+//@   panics   when len(privateKey) != 64
+//@   ensures  forall(i, 0, 32, signature[i] == edwards25519.pencb(rpoint(privateKey[0:32], message), i))
+//@   ensures  forall(i, 0, 32, signature[32+i] == edwards25519.sencb(edwards25519.smuladd(edwards25519.sreduce(hashcat("sha512", signature[0:32], privateKey[32:64], message)), seedscalar(privateKey[0:32]), rscalar(privateKey[0:32], message)), i))
+//@   modifies signature[0:64]
+
+//@ func Sign(privateKey PrivateKey, message []byte) (r []byte)
+//@   props C07
+//@   panics  when len(privateKey) != 64
+//@   ensures len(r) == 64
+//@   ensures forall(i, 0, 32, r[i] == edwards25519.pencb(rpoint(privateKey[0:32], message), i))
+//@   ensures forall(i, 0, 32, r[32+i] == edwards25519.sencb(edwards25519.smuladd(edwards25519.sreduce(hashcat("sha512", r[0:32], privateKey[32:64], message)), seedscalar(privateKey[0:32]), rscalar(privateKey[0:32], message)), i))
+
+//@ func (priv PrivateKey) Public() (r crypto.PublicKey)
+//@   props C07
+//@   requires len(priv) >= 64
+//@   ensures  typeis(r, PublicKey) && len(r) == 32 && forall(i, 0, 32, r[i] == priv[32+i])
+//@   panics   never
+
+//@ func (priv PrivateKey) Seed() (r []byte)
+//@   props C07
+//@   requires len(priv) >= 32
+//@   ensures  len(r) == 32 && forall(i, 0, 32, r[i] == priv[i])
+//@   panics   never
+
+//@ func (priv PrivateKey) Sign(rand io.Reader, message []byte, opts crypto.SignerOpts) (signature []byte, err error)
+//@   props C07
+//@   panics  when len(priv) != 64 && opts.HashFunc() == 0
+//@   ensures isnil(err) == (opts.HashFunc() == 0)
+//@   ensures implies(!isnil(err), signature == nil)
+//@   ensures implies(isnil(err), len(signature) == 64)
+//@   ensures implies(isnil(err), forall(i, 0, 32, signature[i] == edwards25519.pencb(rpoint(priv[0:32], message), i)))
+//@   ensures implies(isnil(err), forall(i, 0, 32, signature[32+i] == edwards25519.sencb(edwards25519.smuladd(edwards25519.sreduce(hashcat("sha512", signature[0:32], priv[32:64], message)), seedscalar(priv[0:32]), rscalar(priv[0:32], message)), i)))
+
+// Completeness: for the key pair (s, A = [s]B) and any nonce scalar r and challenge scalar k, the
+// byte strings that sign produces (A, R = [r]B, S = k*s + r, each encoded) satisfy every conjunct of
+// the ZIP-215 predicate that Verify's postcondition states.
+//@ lemma honest_signature_verifies(s edwards25519.Scalar, r edwards25519.Scalar, k edwards25519.Scalar, pk [32]byte, rb [32]byte, sb [32]byte)
+//@   props C07
+//@   theory edgroup edcodec edaction
+//@   requires forall(i, 0, 32, pk[i] == edwards25519.pencb(edwards25519.smul(s, edwards25519.pB()), i))
+//@   requires forall(i, 0, 32, rb[i] == edwards25519.pencb(edwards25519.smul(r, edwards25519.pB()), i))
+//@   requires forall(i, 0, 32, sb[i] == edwards25519.sencb(edwards25519.smuladd(k, s, r), i))
+//@   ensures  edwards25519.scanon(sb) && edwards25519.pdecodes(pk) && edwards25519.pdecodes(rb)
+//@   ensures  edwards25519.pmul8(edwards25519.smul(edwards25519.sfrom(sb), edwards25519.pB())) == edwards25519.padd(edwards25519.pmul8(edwards25519.pdecode(rb)), edwards25519.pmul8(edwards25519.smul(k, edwards25519.pdecode(pk))))
